@@ -7,3 +7,4 @@ import ZbossModel.Props.C13
 #print axioms Zboss.Host.C13_no_residue_any_schedule
 #print axioms Zboss.Host.settle_idle
 #print axioms Zboss.Host.C13_late_response_no_effect
+#print axioms Zboss.Host.C13_late_response_no_effect_reachable
